@@ -67,6 +67,13 @@ add("C18", "simnet", "property-based testing with an independent counting oracle
     "module churn and three kinds of report steps; TIMING_MESSAGE and the aggregated MESSAGE_TRAFFIC sub-messages must equal the "
     "monitor's own count in both directions. Exploration level.", SIM_NOTE, "DESIGN.md 4 C18")
 
+add("C03", "simnet", "model-based fuzzing with hostile-input generators (Hypothesis; failures bucketed by root cause) + exhaustive disconnect-offset table",
+    "Generated hostile connections (header-field boundary values, impossible payload lengths, crafted/garbage control frames, non-ASCII "
+    "names, cut frames, dead peers, hundreds of connections, clock jumps) next to a well-behaved conversation that must keep "
+    "satisfying the routing/framing/acknowledgement oracles, plus liveness probes; FIN/RST after every byte offset of every protocol "
+    "frame enumerated completely. Exploration level: crash paths are found by search, absence is not proved.",
+    SIM_NOTE + " Hostile clients use types and ids disjoint from the conversation so the model can ignore them.", "DESIGN.md 4 C03")
+
 PLANNED = {}
 
 
